@@ -8,6 +8,18 @@ NA={
  "C18":"Static well-formedness of emitted text, a pure function of the machine configuration; no schedule, clock or fault involved (DESIGN.md §4).",
 }
 CLAIMS={
+ "C02":("exploration",
+  "Random bond graphs with Kahn programs are assembled by the real basm, the whole HDL file set is generated and executed in vsim, the same machine is simulated in bondmachine.VM, each under its own seeded environment timing; external output streams must agree prefix-wise in both the disciplined and the free I/O regime, both worlds must keep running after stalls stop, and the elaborated top-level netlist must connect exactly the bonded endpoints with received = conjunction of the bonded inputs' received lines.",
+  "Trusted: vsim, envsim agents, the Kahn reference (used to say which world deviates). Environment assumption: on outputs whose received is a conjunction over several consumers the environment returns to zero as promptly as processors do.",
+  "deterministic co-simulation (vsim vs Go simulator) under seeded handshake environments + structural netlist-vs-bond-graph comparison","DESIGN.md §3 C02"),
+ "C04":("exploration",
+  "Kahn networks with fan-out and arbitrary (including zero) padding between I/O instructions run in the Go simulator (seeded per-opcode delays, stalling agents) and as generated HDL in vsim; against the Kahn semantics every consumer's captured stream and every external output is a prefix of what was sent, per step no consumer is more than one transfer ahead of or behind its producer, and every live processor transfers again in a stall-free tail.",
+  "Trusted: the Kahn reference model as the meaning of exactly-once in-order delivery; vsim; agents. Same environment assumption as C02 for shared outputs.",
+  "deterministic simulation of both back-ends under seeded delays/stalls against a Kahn-network reference; per-step exactly-once invariant + bounded liveness","DESIGN.md §3 C04"),
+ "C11":("fault_enumeration",
+  "Fault-free: random machines (basm-assembled networks and directly constructed machines with dynamic opcodes, shared objects, threading, word-size overrides) must survive save/load structurally (reflect walk over all fields), byte-identically on re-save, with identical generated Verilog and identical 100-tick simulation. Faults: for one machine per fault run EVERY truncation length, torn write at every 512-byte boundary, lost write, ENOSPC, crash between truncate and write and EVERY single-bit flip of the saved file are enumerated through the simulated disk; a load must fail loudly, or give the saved machine, or a well-formed other machine, never one with a nil opcode / shared object or dangling link.",
+  "Trusted: simdisk fault model, encoding/json. The relaxation under faults (another well-formed machine is accepted) is inherent to a checksum-free format. Enumeration is complete per fault-run machine (files < 2 KB), machines themselves are sampled.",
+  "simulated disk with enumerated short/torn/lost/ENOSPC/crash/bit-flip faults around the real save/load path; fault-free round-trip equivalence","DESIGN.md §3 C11"),
  "C01":("exploration",
   "Random architectures and in-range programs over a committed table of co-implemented (opcode, register size) pairs are executed twice — generated HDL clock by clock in vsim, procbuilder.VM tick by tick — each under its own seeded environment timing; retired pc sequences, post-retire (pc, registers, outputs) snapshots and handshaked output streams must agree. Sampling over programs, architectures and environment schedules.",
   "Trusted: vsim as Verilog executor (2-state, written for this task), the committed co-implemented table (harness/C01/TABLE.md lists every exclusion and why), disciplined I/O regime only, no RAM opcodes (their Simulate is a stub), hardware-optimisation flags not exercised yet.",
